@@ -358,6 +358,11 @@ proof fn lemma_regs<P: AsRef<str>, V>(n: NfaBuilder<char, V>, items: Seq<(P, V)>
     }
 }
 //@include_subst ghost_count.rs u8=char
+// leftmost kinds: what the leftmost iterator is proved to report is a function of the NFA alone (not of the array layout, hence not of
+// num_free_blocks: C11; the NFA stage has no access to that setting, `//@forbid num_free_blocks` on build_original_nfa_and_mapper)
+spec fn lm_searches_ok_cw<V>(st: Seq<State>, tb: Seq<u32>, outs: Seq<Output<V>>, n: NfaBuilder<char, V>) -> bool {
+    forall|hs: &str, pos: nat| #[trigger] cwl_stream(st, tb, outs, hs, pos) == nfa_cwl_stream(n, hs, pos)
+}
 #[verifier::opaque]
 spec fn cwv_post<P: AsRef<str>, V>(st: Seq<State>, tb: Seq<u32>, outs: Seq<Output<V>>, num_states: u32, items: Seq<(P, V)>, kind: MatchKind) -> bool {
     &&& pats_valid(items)
@@ -370,6 +375,7 @@ spec fn cwv_post<P: AsRef<str>, V>(st: Seq<State>, tb: Seq<u32>, outs: Seq<Outpu
             && (!(kind is LeftmostFirst) ==> regs(n, item_pats(items), item_vals(items)))
             && values_are(n, items, items.len() as int)
             && (kind is Standard ==> searches_ok_cw(st, tb, outs, n))
+            && (!(kind is Standard) ==> lm_searches_ok_cw(st, tb, outs, n))
 }
 proof fn lemma_cwv_post<P: AsRef<str>, V>(nfa: NfaBuilder<char, V>, st: Seq<State>, tb: Seq<u32>, asz: u32, bl: u32, num_states: u32, items: Seq<(P, V)>, kind: MatchKind)
     requires
@@ -389,6 +395,11 @@ proof fn lemma_cwv_post<P: AsRef<str>, V>(nfa: NfaBuilder<char, V>, st: Seq<Stat
     lemma_built_outs_ok_cw(st, tb, nfa, idmap);
     lemma_slots_at_least_states_cw(st, tb, nfa, idmap);
     if kind is Standard { lemma_searches_ok_cw(nfa, st, tb, asz, idmap); }
+    else {
+        assert forall|hs: &str, pos: nat| #[trigger] cwl_stream(st, tb, nfa.outputs@, hs, pos) == nfa_cwl_stream(nfa, hs, pos) by {
+            theorem_cwl_sim(nfa, st, tb, asz, idmap, hs, pos);
+        }
+    }
     lemma_state_count(nfa);
     if !(kind is LeftmostFirst) { lemma_regs(nfa, items); }
     assert(nfa.states@.len() == num_states + 1 && st.len() >= nfa.states@.len());
